@@ -50,57 +50,80 @@ def _cvc5_check(smt2, timeout_ms, strings=False):
 
 
 def discharge(ob, timeout_ms=10000, seed=0, use_cvc5=True, strings=False, on_model=None):
-    """-> dict(name, result in {unsat, sat, unknown}, backend, seconds, model?)"""
+    """-> dict(name, result in {unsat, sat, unknown}, backend, seconds, model?)
+
+    Portfolio (quantified VCs are sensitive to the solver's search order, so several
+    short attempts are more stable than one long one):
+      1 z3 E-matching only   2 z3 mbqi (seed a)   3 cvc5 short
+      4 z3 mbqi (seeds b, c)   5 cvc5 full budget
+    Only `unsat` discharges; `sat` is accepted from the mbqi attempts (models).
+    """
     rec = dict(name=ob.name, kind=ob.kind)
     total = 0.0
-    # attempt 1: z3, E-matching only (fast refutations of the negated goal)
-    s, r, dt = _z3_check(ob.hyps, ob.goal, min(timeout_ms, 3000), mbqi=False, seed=seed)
-    total += dt
-    if r == z3.unsat:
-        rec.update(result="unsat", backend="z3", seconds=round(total, 3))
+    reasons = []
+    state = {"smt2": None}
+
+    def done(result, backend, **kw):
+        rec.update(result=result, backend=backend, seconds=round(total, 3), **kw)
         return rec
-    reason = ""
-    smt2 = None
-    # attempt 2: cvc5 (enumerative instantiation) with a short budget
-    if use_cvc5 and os.path.exists(CVC5):
-        try:
-            smt2 = s.to_smt2()
-            res, dt, err = _cvc5_check(smt2, min(timeout_ms, 5000), strings=strings)
-            total += dt
-            if res == "unsat":
-                rec.update(result="unsat", backend="cvc5", seconds=round(total, 3))
-                return rec
-            reason += "cvc5: %s %s" % (res, err)
-        except Exception as e:
-            reason += "cvc5 error: %s" % e
-    # attempt 3: z3 default configuration (mbqi on), full budget; models come from here
-    s, r, dt = _z3_check(ob.hyps, ob.goal, timeout_ms, mbqi=True, seed=seed)
-    total += dt
-    if r == z3.unsat:
-        rec.update(result="unsat", backend="z3", seconds=round(total, 3))
-        return rec
-    if r == z3.sat:
-        try:
-            rec["model"] = model_to_dict(s.model())
-            if on_model is not None:
-                rec["inputs"] = on_model(s.model())
-        except Exception as e:  # pragma: no cover
-            rec["model"] = {"error": str(e)}
-        rec.update(result="sat", backend="z3", seconds=round(total, 3))
-        return rec
-    reason = "z3: " + s.reason_unknown() + " | " + reason
-    # attempt 4: cvc5 with the full budget
-    if use_cvc5 and smt2 is not None and timeout_ms > 5000:
-        res, dt, err = _cvc5_check(smt2, timeout_ms, strings=strings)
+
+    def z3_try(ms, mbqi, sd):
+        nonlocal total
+        s, r, dt = _z3_check(ob.hyps, ob.goal, ms, mbqi=mbqi, seed=sd)
         total += dt
+        if state["smt2"] is None:
+            try:
+                state["smt2"] = s.to_smt2()
+            except Exception:
+                state["smt2"] = ""
+        if r == z3.sat and mbqi:
+            try:
+                rec["model"] = model_to_dict(s.model())
+                if on_model is not None:
+                    rec["inputs"] = on_model(s.model())
+            except Exception as e:  # pragma: no cover
+                rec["model"] = {"error": str(e)}
+        if r == z3.unknown:
+            reasons.append("z3(%s,seed=%d): %s" % ("mbqi" if mbqi else "ematch", sd, s.reason_unknown()))
+        return r
+
+    def cvc5_try(ms):
+        nonlocal total
+        if not (use_cvc5 and os.path.exists(CVC5) and state["smt2"]):
+            return "unknown"
+        try:
+            res, dt, err = _cvc5_check(state["smt2"], ms, strings=strings)
+        except Exception as e:
+            reasons.append("cvc5 error: %s" % e)
+            return "unknown"
+        total += dt
+        if res not in ("unsat", "sat"):
+            reasons.append("cvc5: %s %s" % (res, err.strip()[:120]))
+        return res
+
+    slice_ms = max(2000, timeout_ms // 3)
+    if z3_try(min(timeout_ms, 3000), False, seed) == z3.unsat:
+        return done("unsat", "z3")
+    r = z3_try(slice_ms, True, seed)
+    if r == z3.unsat:
+        return done("unsat", "z3")
+    if r == z3.sat:
+        return done("sat", "z3")
+    if cvc5_try(min(timeout_ms, 5000)) == "unsat":
+        return done("unsat", "cvc5")
+    for sd in (seed + 17, seed + 4242):
+        r = z3_try(slice_ms, True, sd)
+        if r == z3.unsat:
+            return done("unsat", "z3")
+        if r == z3.sat:
+            return done("sat", "z3")
+    if timeout_ms > 5000:
+        res = cvc5_try(timeout_ms)
         if res == "unsat":
-            rec.update(result="unsat", backend="cvc5", seconds=round(total, 3))
-            return rec
+            return done("unsat", "cvc5")
         if res == "sat":
-            rec.update(result="sat", backend="cvc5", seconds=round(total, 3), model={})
-            return rec
-    rec.update(result="unknown", backend="z3+cvc5" if use_cvc5 else "z3", seconds=round(total, 3), reason=reason)
-    return rec
+            return done("sat", "cvc5", model={})
+    return done("unknown", "z3+cvc5" if use_cvc5 else "z3", reason=" | ".join(reasons)[:600])
 
 
 def model_to_dict(m):
